@@ -323,6 +323,11 @@ func nondetSources(info *types.Info, f *ast.File) []srcHit {
 				if why, ok := bannedPackages[obj.Pkg().Path()]; ok {
 					hits = append(hits, srcHit{obj.Pkg().Path() + "." + obj.Name(), why, x.Pos()})
 				} else if why, ok := bannedObjects[obj.Pkg().Name()+"."+obj.Name()]; ok && (obj.Pkg().Path() == "time" || obj.Pkg().Path() == "os" || obj.Pkg().Path() == "runtime") {
+					if why == "wall clock" && telemetryArg[x] {
+						// `defer telemetry.MeasureSince(time.Now(), ..)`: the wall clock goes into a metric and nowhere
+						// else (the SDK's own modules time their entry points this way)
+						return true
+					}
 					hits = append(hits, srcHit{obj.Pkg().Name() + "." + obj.Name(), why, x.Pos()})
 				} else if wordSized[obj.Pkg().Path()+"."+obj.Name()] {
 					hits = append(hits, srcHit{obj.Pkg().Path() + "." + obj.Name(), "value depends on the word size of the build (32 / 64 bit): nodes built for different architectures write different state", x.Pos()})
